@@ -19,7 +19,8 @@ LEVEL = "model_checking"
 # einsum / tensordot (see c11.install_minilib): the single-term steps then use cotengra's own diagonal / sum / transpose code
 IMPLS = ["auto", "cotengra", "autoray", "recording", "cotengra+minilib"]
 SORTS = [None, ("flops", True, True), ("size", True, False), ("root", False, True), ("leaves", True, True), "reset",
-         ("contracted-before", "flops"), ("contracted-before", "leaves")]
+         ("contracted-before", "flops"), ("contracted-before", "leaves"),
+         ("contracted-before", "flops", "reset"), ("contracted-before", "size", "reset"), ("contracted-before", "leaves", "reset")]
 
 
 def option_sets(rng, k):
@@ -47,7 +48,8 @@ def apply_sort(tree, sort):
         # re-sorted without resetting them first
         arrays = arrays_for_state(tree)
         tree.contract(arrays)
-        tree.sort_contraction_indices(priority=sort[1], reset=False)
+        # ... or with the default reset (every recipe derived from the old orders must go, the root's too)
+        tree.sort_contraction_indices(priority=sort[1], reset=len(sort) > 2)
         return
     pr, oc, cc = sort
     tree.sort_contraction_indices(priority=pr, make_output_contig=oc, make_contracted_contig=cc)
